@@ -3,6 +3,7 @@
 package storesim
 
 import (
+	"errors"
 	"encoding/json"
 	"math"
 	"fmt"
@@ -89,6 +90,10 @@ func valueOf(code string) any {
 	case code[0] == 'a': // a slice that already is a []any
 		n, _ := strconv.Atoi(code[1:])
 		return []any{n}
+	case code[0] == 'R': // a flyt.Result is a value like any other: stored and handed back as it is
+		return flyt.NewResult("r" + code[1:])
+	case code[0] == 'E':
+		return flyt.NewErrorResult(errors.New("e" + code[1:]))
 	case code[0] == 'n': // a nested section: a map[string]any value (replaced as a whole by Set and Merge)
 		n, _ := strconv.Atoi(code[1:])
 		return map[string]any{"x" + strconv.Itoa(n%3): n}
@@ -122,6 +127,14 @@ func codeOf(v any) string {
 			return "z0"
 		}
 		return "f" + strconv.Itoa(int(x))
+	case flyt.Result:
+		if x.IsError() {
+			if m := x.Error().Error(); strings.HasPrefix(m, "e") && x.Value() == nil {
+				return "E" + m[1:]
+			}
+		} else if v, ok := x.Value().(string); ok && strings.HasPrefix(v, "r") {
+			return "R" + v[1:]
+		}
 	case []int:
 		if len(x) == 1 {
 			return "l" + strconv.Itoa(x[0])
@@ -332,6 +345,8 @@ func apply(s state, op *Op, snapArg state) (state, string) {
 		case c[0] == 'n':
 			n, _ := strconv.Atoi(c[1:])
 			return s, `{"x` + strconv.Itoa(n%3) + `":` + c[1:] + `}`
+		case c[0] == 'R', c[0] == 'E': // a struct without exported fields
+			return s, "{}"
 		}
 		return s, "?"
 	}
@@ -581,6 +596,9 @@ func (g *genState) val() string {
 	}
 	if g.r.IntN(12) == 0 {
 		return "I" + strconv.Itoa(g.nextID)
+	}
+	if g.r.IntN(25) == 0 {
+		return pick2(g.r, "R", "E") + strconv.Itoa(g.nextID)
 	}
 	if g.r.IntN(8) == 0 {
 		return pick2(g.r, "z0", "z1")
